@@ -27,7 +27,7 @@ build_check() {
   adds+=(-add "mock=$V/harness/mock" -add "$h=$V/harness/$h")
   "$V/.bin/vinstr" $race -repo "$REPO" -out "$B/gen" -overlay "$B/ov.json" "${adds[@]}" \
      -addfile "utils/pool/zz_verif_pmath.go=$V/export/zz_verif_pmath.go" -addfile "codec/frame/zz_verif_frame.go=$V/export/zz_verif_frame.go" \
-     . utils/pool utils/pool/pbytes utils/pool/pbuffer codec/xhttp codec/frame codec/format utils transport >"$B/vinstr.log" 2>&1 || { cat "$B/vinstr.log" >&2; echo "ENGINE ERROR: instrumentation failed" >&2; return 2; }
+     . utils/pool utils/pool/pbytes utils/pool/pbuffer codec/xhttp codec/frame codec/format utils transport transport/tcp >"$B/vinstr.log" 2>&1 || { cat "$B/vinstr.log" >&2; echo "ENGINE ERROR: instrumentation failed" >&2; return 2; }
   (cd "$REPO" && go build -tags verif -overlay "$B/ov.json" -o "$B/check" "./zz_verif/$h") >"$B/build.log" 2>&1 || { cat "$B/build.log" >&2; echo "ENGINE ERROR: build failed" >&2; return 2; }
 }
 
